@@ -45,8 +45,85 @@ CLAIMS["C14"] = dict(
     design_ref="DESIGN.md §4 C14, §9",
     note=TRUSTED + " Assumed interface contracts for foreign http.ResponseWriter / io.ReaderFrom / http.Flusher / Hijacker implementations and for io.WriteString, io.CopyBuffer (foxvc/externs/http.spec). ReadFrom is verified for partial correctness (the sync.Pool type assertion is assumed). A genuine defect in ReadFrom was repaired (known_findings.json).")
 
+CLAIMS["C02"] = dict(
+    technique="contract-based deductive verification (partial correctness): postconditions on the route counter and the search classification, SMT",
+    text=("Proved for every tree shape and every call: insert adds exactly one to the route counter when it returns nil and leaves it alone when it fails; update "
+          "keeps it; remove subtracts one exactly when it reports success; full Truncate sets it to zero; commit publishes the transaction's counter, so by induction "
+          "over any history Len() is (#successful inserts - #successful removes since the last full truncate). methodIndex is fully specified (fixed verbs 0..3, else the "
+          "first custom root with that key, else -1); classify/isExactMatch are the documented case split; commonPrefix is fully specified. Not decided: equivalence of the "
+          "tree with a map (which calls succeed, iterator contents, conflict lists), the per-method Truncate count (countRoutes is trusted)."),
+    design_ref="DESIGN.md section 4 C02, section 9",
+    note=TRUSTED + " insert/update/remove/truncate are verified for partial correctness: their safety conditions (nil dereference, index, the three internal-error panics) are assumed, not claimed. A genuine defect (Truncate never adjusted the counter) was repaired (known_findings.json).")
+CLAIMS["C03"] = dict(
+    technique="contract-based deductive verification: heap frame obligations relative to a ghost snapshot reference, SMT",
+    text=("Proved for arbitrary tree shapes, cache contents and histories of one write transaction: copyOnWriteSearch, insert, update, remove, truncate, the root helpers, "
+          "updateEdge, newNode (in-place sort), clone, getEdges, recreateParentEdge write no heap location that existed at the last snapshot point (ghost snapRef = allocation "
+          "pointer at transaction start, Iter on a write transaction, Txn.Snapshot, Commit): every frame obligation is 'unchanged on all references below snapRef'. "
+          "The transaction's cache invariant (every cached node and its children array were allocated after snapRef) is established by txn/snapshot/clone/commit, which is "
+          "what forces them to drop the cache, and is preserved by every mutation including eviction. Not decided: concurrent schedules; the glue 'memory reachable from a "
+          "published root is older than the snapshot point' is argued in DESIGN.md, not machine-checked; readers' purity is covered only by their frames where under contract."),
+    design_ref="DESIGN.md section 4 C03, section 9",
+    note=TRUSTED + " Assumed contracts: internal/simplelru (Get hits only keys previously added; Add/eviction never invent keys), slices.SortFunc (permutes only its argument). Partial correctness for the tree mutators.")
+CLAIMS["C04"] = dict(
+    technique="contract-based deductive verification: typestate and ghost lock/publication state, deferred-call and re-panic contracts, SMT",
+    text=("Proved (sequential model): a write transaction takes the lock before loading the root it starts from; Commit from the open-write state publishes exactly one new tree "
+          "carrying the transaction's root/size/limits while holding the lock, then settles and unlocks; Commit/Abort from any other state change nothing (idempotent); Abort "
+          "never publishes; read-only transactions never touch the lock; Updates returns with the lock released on every normal exit, commits exactly when the callback returned "
+          "nil and publishes nothing otherwise; its deferred function aborts and re-raises the same panic value when a panic is in flight (checked as a separate behaviour of the "
+          "closure), likewise View. Not decided: interleavings with concurrent readers (rests on C03 plus the single atomic store), the settled/read-only guards of the other "
+          "Txn methods (not yet under contract)."),
+    design_ref="DESIGN.md section 4 C04, section 9",
+    note=TRUSTED + " Assumed contracts: sync.Mutex Lock/Unlock and atomic.Pointer Load/Store over ghost state; the callback given to Updates/View neither commits nor aborts the transaction.")
+CLAIMS["C05"] = dict(
+    category="other",
+    technique="contract-based deductive verification of the sequential publication protocol only (schedules are outside contract reach)",
+    text=("Reduced level, labelled as such: contracts do not quantify over schedules. Proved are the sequential facts the interleaving argument rests on: lock-then-load in "
+          "txnWith (assert-at on the root load), store-under-lock and store-before-unlock in Commit, no publication in Abort, a single Load per read entry (getRoot), and (C03) that "
+          "nothing older than the snapshot point is ever written. Race-freedom and linearizability over actual schedules are NOT decided."),
+    design_ref="DESIGN.md section 4 C05, section 9",
+    note=TRUSTED + " The glue from these facts to race-freedom/linearizability is a paper argument.")
+CLAIMS["C06"] = dict(
+    technique="contract-based deductive verification: ghost lock-operation counter on read-only paths, SMT",
+    text=("Proved path-sensitively: txnWith(false), Router.Txn(false), Commit and Abort of a read-only transaction, View and its deferred function leave the ghost count of "
+          "operations on the writer mutex unchanged and never require or change its held state. Not yet decided: the call-graph effect clause 'no lock anywhere below ServeHTTP, "
+          "Lookup, Reverse, Route, Has, Len, Iter' (planned effect checker), progress under an adversarial scheduler."),
+    design_ref="DESIGN.md section 4 C06, section 9",
+    note=TRUSTED + " Assumed contracts for sync.Mutex over ghost state.")
+CLAIMS["C13"] = dict(
+    technique="contract-based deductive verification: recursive spec function (define-fun-rec) for the middleware chain, frame obligations, SMT",
+    text=("Proved for every middleware list: applyMiddleware returns chain(mws, scope, h, 0) and applyRouteMiddleware the two route chains, where chain applies each entry whose "
+          "scope intersects exactly once, earlier entries outermost (abstract application app(m,h)); WithMiddleware appends (m[i], RouteHandler, route-specific) in order and rejects "
+          "nil; NewRoute's chains are built over the route's final list, options are applied in order and all of them, and NewRoute never writes into the router's middleware "
+          "array (frame obligation; this exposed a genuine sharing defect, repaired). Not decided: New's wiring of the special handlers, DefaultOptions, middleware bodies."),
+    design_ref="DESIGN.md section 4 C13, section 9",
+    note=TRUSTED + " Assumed contracts: MiddlewareFunc values are abstract (app); RouteOption implementations outside the package obey the option contract.")
+CLAIMS["C18"] = dict(
+    technique="bit-vector SMT audit over all 2^32 + 2^128 addresses of the CIDR literals read from the source each run",
+    text=("Proved for every address: each CIDR literal of the default tables (privateAndLocalRanges, privateRange, loopbackRanges, linkLocalRanges) lies inside the union of the "
+          "IANA special-purpose blocks that are not globally reachable (written in clientip/verif_contracts.go). A genuine defect (192.18.0.0/15 for 198.18.0.0/15) was repaired. "
+          "Not decided: which entry each strategy returns and the spoof-resistance clause (the strategies use range-over-func iterators, outside the verifier's Go subset)."),
+    design_ref="DESIGN.md section 4 C18, section 9",
+    note="Trusted: net.ParseCIDR semantics as re-implemented by the audit (prefix/mask), the registry transcription, the SMT solvers.")
+CLAIMS["C19"] = dict(
+    technique="contract-based deductive verification of option closures, NewRoute and route accessors, SMT",
+    text=("Proved: the two trailing-slash options are mutually exclusive on router and route and disabling one leaves the other; the resolver option (nil route resolver means none, "
+          "nil global resolver unchanged) and Route.ClientIPResolver; WithAnnotation stores under hashable keys and rejects the others with ErrInvalidConfig without panicking for "
+          "any key (exposed a genuine defect, repaired); NewRoute: fresh route with the pattern, handler, parameter count == number of wildcards and host split at the first slash, "
+          "all options applied in order, first error aborts; accessors Hostname/Path/Pattern/ParamsLen; Context.ClientIP uses the matched route's resolver when a route is set and "
+          "the router's otherwise. Not decided: global option closures other than those listed, ServeHTTP's choice of route (C12)."),
+    design_ref="DESIGN.md section 4 C19, section 9",
+    note=TRUSTED + " Assumed contracts: reflect.ValueOf/Value.Comparable (hashability), cmp.Or, the RouteOption/optionFunc contracts for foreign options.")
+CLAIMS["C20"] = dict(
+    technique="contract-based deductive verification of the middleware closure over ghost call/log state, SMT",
+    text=("Proved for every handler behaviour: level maps 2xx to INFO, 3xx to DEBUG, 4xx to WARN, >=500 to ERROR, else INFO; the Logger closure calls the wrapped handler exactly "
+          "once and first, then emits exactly one record, at level(level of the status observed after the handler), with message the resolver's address when ClientIP succeeds, the "
+          "remote address when the error is ErrNoClientIPResolver and 'unknown' otherwise, attributes status/method/host/path from the context's observers and the Location "
+          "attribute exactly when the level is DEBUG and the header is non-empty. Not decided: latency, slog formatting, DefaultOptions wiring (C13)."),
+    design_ref="DESIGN.md section 4 C20, section 9",
+    note=TRUSTED + " Assumed contracts: Context/ResponseWriter observers are functions of the object and the handler-invocation epoch; slog, net, time externs.")
+
 NOT_APPLICABLE = {
-    "C01": "not yet under contract in this revision (matcher mechanisms planned, DESIGN.md §4 C01)",
+    "C01": "only edge search and method index are under contract so far; matcher mechanisms not yet (DESIGN.md section 4 C01)",
     "C02": "not yet under contract in this revision (counters/guards planned, DESIGN.md §4 C02)",
     "C03": "not yet under contract in this revision (ownership frame planned, DESIGN.md §4 C03)",
     "C04": "not yet under contract in this revision (typestate planned, DESIGN.md §4 C04)",
@@ -57,7 +134,7 @@ NOT_APPLICABLE = {
     "C09": "not yet under contract in this revision (DESIGN.md §4 C09)",
     "C10": "not yet under contract in this revision (DESIGN.md §4 C10)",
     "C11": "not yet under contract in this revision (DESIGN.md §4 C11)",
-    "C12": "not yet under contract in this revision (DESIGN.md §4 C12)",
+    "C12": "only the reset variants are under contract so far (DESIGN.md section 4 C12)",
     "C13": "not yet under contract in this revision (DESIGN.md §4 C13)",
     "C14": "not yet under contract in this revision (DESIGN.md §4 C14)",
     "C15": "not yet under contract in this revision (DESIGN.md §4 C15)",
